@@ -337,11 +337,15 @@ theorem c11_get_int_same_fallback (m : Extracted.TpArgs.ArgMap) (k : String) (d 
   cases List.lookup k m <;> simp
 
 /-- **what is and is not "unparsable"** — the default is used exactly when the key is absent or `int()` of the value
-    raises `ValueError` (text that is no integer, a NaN); a value is used as it is when `int()` accepts it (integer
-    text in ANY Unicode decimal digits with surrounding Unicode spaces, bool, int, finite float truncated); and for
-    `None`, an infinite float or another object `int()` raises `TypeError` / `OverflowError`, which `except ValueError`
-    does NOT catch: the exception leaves `fire_count` / `fire_period` (such values can only come from
-    `register_tracepoint`, the service sends text). -/
+    raises `ValueError` (text that is no integer, integer text with more digits than the interpreter's limit
+    `maxStrDigits` — 4300 by default —, a NaN); a value is used as it is when `int()` accepts it (integer text in ANY
+    Unicode decimal digits with surrounding Unicode spaces, bool, int, finite float truncated); and for `None`, an
+    infinite float or an object WITHOUT `__int__` / `__index__` / `__trunc__` (`ArgVal.other`: list, dict, plain object)
+    `int()` raises `TypeError` / `OverflowError`, which `except ValueError` does NOT catch: the exception leaves
+    `fire_count` / `fire_period`.  Values `int()` converts by other routes — bytes, bytearray, Decimal, Fraction,
+    objects with their own `__int__` — are NOT in `ArgVal` (unmodelled, not generated).  Such values can only come from
+    `register_tracepoint`, the service sends text.  (The first conjuncts restate the `match` of `get_arg_int`; the
+    content is `pyInt` and its tie.) -/
 theorem c11_arg_int_table (m : Extracted.TpArgs.ArgMap) (k : String) (d : Int) :
     (m.lookup k = none → Extracted.TpArgs.get_arg_int m k d = .ok d) ∧
     (∀ v, m.lookup k = some v →
@@ -360,7 +364,7 @@ theorem c11_arg_int_table (m : Extracted.TpArgs.ArgMap) (k : String) (d : Int) :
     fire period read through `__get_int` are `Extracted.Limiter.fireCountOf / firePeriodOf` of that text (so every C04
     theorem about configuration texts is about what `loc_fire_count` returns). -/
 theorem c11_arg_int_ascii (s : String) (hs : ∀ c ∈ s.toList, c.toNat < 128) :
-    Extracted.TpArgs.parseIntU s = Py.parseInt s ∧
+    Extracted.TpArgs.parseIntU s = Extracted.Limiter.parseIntL s ∧
     Extracted.TpArgs.loc_fire_count [("fire_count", .str s)] = .ok (Extracted.Limiter.fireCountOf (some s)) ∧
     Extracted.TpArgs.loc_fire_period [("fire_period", .str s)] = .ok (Extracted.Limiter.firePeriodOf (some s)) := by
   have e : Extracted.TpArgs.toAsciiDecimal s = s := by
@@ -371,14 +375,24 @@ theorem c11_arg_int_ascii (s : String) (hs : ∀ c ∈ s.toList, c.toNat < 128) 
       intro c hc
       simp [Extracted.TpArgs.asciiOf, hs c hc]
     rw [this]; simp
-  have hp : Extracted.TpArgs.parseIntU s = Py.parseInt s := by unfold Extracted.TpArgs.parseIntU; rw [e]
+  have hp : Extracted.TpArgs.parseIntU s = Extracted.Limiter.parseIntL s := by
+    unfold Extracted.TpArgs.parseIntU Extracted.Limiter.parseIntL
+    rw [e]; rfl
   refine ⟨hp, ?_, ?_⟩
   · simp only [Extracted.TpArgs.loc_fire_count, Extracted.TpArgs.loc_get_int, List.lookup, beq_self_eq_true,
       Option.getD_some, Extracted.TpArgs.pyInt, hp, Extracted.Limiter.fireCountOf, Extracted.Limiter.getInt]
-    cases Py.parseInt s <;> rfl
+    cases Extracted.Limiter.parseIntL s <;> rfl
   · simp only [Extracted.TpArgs.loc_fire_period, Extracted.TpArgs.loc_get_int, List.lookup, beq_self_eq_true,
       Option.getD_some, Extracted.TpArgs.pyInt, hp, Extracted.Limiter.firePeriodOf, Extracted.Limiter.getInt]
-    cases Py.parseInt s <;> rfl
+    cases Extracted.Limiter.parseIntL s <;> rfl
+
+/-- integer text beyond the digit limit is a `ValueError`, in any script: the default is used -/
+theorem c11_arg_int_digit_limit (s : String)
+    (h : Extracted.TpArgs.digitCount (Extracted.TpArgs.toAsciiDecimal s) > Extracted.TpArgs.maxStrDigits) (k : String)
+    (d : Int) : Extracted.TpArgs.get_arg_int [(k, .str s)] k d = .ok d := by
+  have hm : (Extracted.TpArgs.maxStrDigits != 0) = true := by decide
+  have : Extracted.TpArgs.parseIntU s = none := by simp [Extracted.TpArgs.parseIntU, hm, h]
+  simp [Extracted.TpArgs.get_arg_int, Extracted.TpArgs.get_arg, Extracted.TpArgs.pyInt, this]
 
 /-- witness: odd but valid integer texts, and texts that are not integers (Arabic-Indic and Devanagari digits, a
     no-break space and an ideographic space around the number, PEP 515 underscore, sign; exponent, empty, inner space,
